@@ -154,6 +154,13 @@ class LazyGen:
         return next(iter(self))
 
 
+class _SuperRef:
+    """super() inside a class method: the receiver class and the class the method search continues at."""
+
+    def __init__(self, ci, start):
+        self.ci, self.start = ci, start
+
+
 class LocalFunc:
     def __init__(self, node, env):
         self.node, self.env = node, env
@@ -409,6 +416,22 @@ class Interp:
         if not isinstance(f, ast.Attribute):
             return UNKNOWN
         v = f.value
+        if isinstance(v, ast.Call) and isinstance(v.func, ast.Name) and v.func.id == "super" and self.me is None and self.cls is not None and getattr(self, "defcls", None) is not None:
+            # super() / super(C, cls) inside a class method that was called on a class
+            mro = self.cls.mro()
+            if self.defcls in mro:
+                for k in mro[mro.index(self.defcls) + 1:]:
+                    m2 = k.methods.get(f.attr)
+                    if m2 is None:
+                        continue
+                    decos = {getattr(d, "id", None) for d in m2.decorator_list}
+                    if not decos & {"classmethod", "staticmethod"}:
+                        return UNKNOWN
+                    e2 = ast.copy_location(ast.Call(func=ast.copy_location(ast.Attribute(value=ast.copy_location(ast.Name(id="__super", ctx=ast.Load()), v), attr=f.attr, ctx=ast.Load()), f), args=e.args, keywords=e.keywords), e)
+                    env2 = dict(env)
+                    env2["__super"] = _SuperRef(self.cls, k)
+                    return self._classmethod_call(e2, env2, depth)
+            return UNKNOWN
         if isinstance(v, ast.Call) and isinstance(v.func, ast.Name) and v.func.id == "super" and not v.args:
             if self.me is None or self.cls is None:
                 return UNKNOWN
@@ -752,8 +775,16 @@ class Interp:
                 v_ = self.ev(e.args[0], env, depth)
                 if not isinstance(v_, (Obj, ClassRef, FuncRef, Instance)):
                     return any(isinstance(v_, kinds[n_]) for n_ in names)
+        if isinstance(e, ast.Call) and isinstance(e.func, ast.Attribute) and isinstance(e.func.value, ast.Name) and e.func.value.id in ("int", "bytes", "str", "dict") and e.func.value.id not in env \
+                and (e.func.value.id, e.func.attr) in (("int", "from_bytes"), ("bytes", "fromhex"), ("str", "join"), ("dict", "fromkeys")):
+            args = [self.ev(a, env, depth) for a in e.args]
+            kw = {k.arg: self.ev(k.value, env, depth) for k in e.keywords if k.arg}
+            if all(isinstance(a, (int, str, bytes, bytearray, list, tuple)) for a in args + list(kw.values())):
+                return getattr({"int": int, "bytes": bytes, "str": str, "dict": dict}[e.func.value.id], e.func.attr)(*args, **kw)
         if isinstance(e, ast.Call) and isinstance(e.func, ast.Name) and e.func.id in _PURE_BUILTINS and e.func.id not in env and not e.keywords:
             args = [self.ev(a, env, depth) for a in e.args]
+            if e.func.id == "range" and any(a is None or isinstance(a, (ClassRef, Instance, str, bytes, list, dict, float)) for a in args):
+                raise TypeError("range() of a non-integer")
             if all(isinstance(a, (int, float, str, bytes, bytearray, bool, list, tuple, dict, range, set, frozenset, type(None), LazyGen)) for a in args):
                 return _PURE_BUILTINS[e.func.id](*args)
         if isinstance(e, ast.Call) and ast.unparse(e.func) in ("pack", "unpack", "unpack_from", "calcsize", "struct.pack", "struct.unpack", "struct.unpack_from", "struct.calcsize") and not e.keywords:
@@ -830,9 +861,13 @@ class Interp:
         if self._mentions_obj(e.func.value, env):
             return UNKNOWN
         recv = self.ctx.folder.eval(e.func.value, self.module, env=env)
-        if not isinstance(recv, ClassRef):
+        if isinstance(recv, _SuperRef):
+            dc, m = recv.start, recv.start.methods.get(e.func.attr)
+            recv = ClassRef(recv.ci)
+        elif not isinstance(recv, ClassRef):
             return UNKNOWN
-        dc, m = recv.ci.lookup(e.func.attr)
+        else:
+            dc, m = recv.ci.lookup(e.func.attr)
         if not isinstance(m, ast.FunctionDef):
             return UNKNOWN
         decos = {getattr(d, "id", None) for d in m.decorator_list}
@@ -856,6 +891,7 @@ class Interp:
             if k.arg:
                 env2[k.arg] = self.ev(k.value, env, depth)
         other = Interp(self.ctx, dc.module, self.hook, self.max_depth, recv.ci)
+        other.defcls = dc  # the class that defines m: where super() continues from
         other.steps = self.steps
         defaults = m.args.defaults
         for p_, d_ in zip([a.arg for a in m.args.args][len(m.args.args) - len(defaults):], defaults):
